@@ -13,6 +13,7 @@ fn main() {
     let rest = &args[2..];
     let code = std::panic::catch_unwind(|| match args[1].as_str() {
         "replay-prog" => xv::prog::cmd_replay(rest),
+        "code-drift" => xv::prog::cmd_code_drift(rest),
         "prog-record" => xv::prog::cmd_record(rest),
         "rev-record" => xv::rev::cmd_record(rest),
         "drive-record" => xv::drive::cmd_record(rest),
